@@ -39,7 +39,7 @@ F10_SIG = "kern-rule-mixes-R-and-L-bidi-glyphs"
 REP = [("A", 0x41), ("V", 0x56), ("T", 0x54), ("a", 0x61), ("o", 0x6F), ("period", 0x2E), ("hyphen", 0x2D), ("one", 0x31),
        ("two", 0x32), ("a-cy", 0x430), ("be-cy", 0x431), ("alpha", 0x3B1), ("alef-ar", 0x627), ("beh-ar", 0x628),
        ("one-ar", 0x661), ("alef-hb", 0x5D0), ("bet-hb", 0x5D1), ("ka-deva", 0x915), ("acutecomb", 0x301),
-       ("A.alt", None), ("V.sc", None), ("dash.case", None), ("period.alt", None),
+       ("A.alt", None), ("V.sc", None), ("dash.case", None), ("period.alt", None), ("gravecomb", 0x300),
        ("ge-cy", 0x433), ("te-cy", 0x442), ("Gamma", 0x393), ("Tau", 0x3A4), ("comma", 0x2C),
        # glyphs of the Arabic script without a strong bidi class (ET / ON): kerned among themselves they are still right-to-left
        ("percent-ar", 0x66A), ("perthousand-ar", 0x609), ("poeticverse-ar", 0x60E),
@@ -76,10 +76,12 @@ def gen(rng, neutral_alt=False, split_gdef=False):
     forced = []
     if split_gdef:
         # marks kerned against bases (both orders, and a mark pair), the mark class declared by hand in the feature file
-        for extra in ("A", "V", "acutecomb"):
+        for extra in ("A", "V", "acutecomb", "gravecomb"):
             if extra not in names:
                 items.append(next(r for r in REP if r[0] == extra)); names.append(extra)
-        forced = [(("A", "acutecomb"), Fr(-55)), (("acutecomb", "V"), Fr(25)), (("acutecomb", "acutecomb"), Fr(10))]
+        # (mark against ANOTHER mark in both orders, and a mark against itself)
+        forced = [(("A", "acutecomb"), Fr(-55)), (("acutecomb", "V"), Fr(25)), (("acutecomb", "acutecomb"), Fr(10)),
+                  (("acutecomb", "gravecomb"), Fr(-40)), (("gravecomb", "acutecomb"), Fr(15))]
     if neutral_alt:
         # a font of both directions in which a bidi-neutral glyph has an unencoded alternate reachable by substitution only:
         # the alternate is neutral like its base, so pairs with it are kerned on either side, in either direction
@@ -140,6 +142,8 @@ def gen(rng, neutral_alt=False, split_gdef=False):
     lib = {}
     if "acutecomb" in names and rng.random() < 0.6:
         lib["public.openTypeCategories"] = {"acutecomb": "mark"}
+        if "gravecomb" in names:
+            lib["public.openTypeCategories"]["gravecomb"] = "mark"
     glyphs = [{"name": nm, "width": 0 if nm == "acutecomb" and rng.random() < 0.7 else 500, "unicodes": [u] if u else [],
                "contours": []} for nm, u in items]
     if fea and "A.alt" in names and "A" in names and rng.random() < 0.5:
@@ -147,8 +151,8 @@ def gen(rng, neutral_alt=False, split_gdef=False):
     if split_gdef:
         # the user's GDEF table comes in TWO blocks: ligature carets first, the glyph classes (with the mark class) second
         lib.pop("public.openTypeCategories", None)
-        bases = " ".join(nm for nm in names if nm != "acutecomb")
-        fea += "table GDEF {\n    LigatureCaretByPos A 100;\n} GDEF;\ntable GDEF {\n    GlyphClassDef [%s], , [acutecomb], ;\n} GDEF;\n" % bases
+        bases = " ".join(nm for nm in names if nm not in ("acutecomb", "gravecomb"))
+        fea += "table GDEF {\n    LigatureCaretByPos A 100;\n} GDEF;\ntable GDEF {\n    GlyphClassDef [%s], , [acutecomb gravecomb], ;\n} GDEF;\n" % bases
     if neutral_alt:
         if not fea:
             fea = "languagesystem DFLT dflt;\nlanguagesystem latn dflt;\nlanguagesystem arab dflt;\n"
